@@ -619,9 +619,9 @@ func ruleWidthLimitIsExclusiveOf100(w *World, r *Report, prop, rule string) {
 			op = map[string]string{"<": ">", "<=": ">=", ">": "<", ">=": "<="}[op]
 		}
 		switch op {
-		case ">":
+		case ">", "<=": // refused above k / expanded up to k
 			maxOK = k
-		case ">=":
+		case ">=", "<": // refused from k on / expanded below k
 			maxOK = k - 1
 		}
 		r.check(maxOK == 100, rule, w.FuncName(f), "a range of exactly 100 ports is still expanded", w.Pos(b.Pos()), fmt.Sprintf("Width() %s %d", op, k), fmt.Sprintf("the exact strategy refuses from width %d on (Width() %s %d): a filter with exactly 100 ports fails inside the rule writer, the request is accepted and the PDR is never installed", maxOK+1, op, k))
@@ -1682,6 +1682,34 @@ func ruleReservedIDNotPooled(w *World, r *Report, prop, rule string) {
 	n := 0
 	for _, name := range []string{"pfcpiface.(*UP4).initApplicationIDs", "pfcpiface.(*UP4).initTunnelPeerIDs"} {
 		f := w.Fn(prop, name)
+		// filled slot by slot: pool[i] = T(i + k)
+		allInstrs(f, func(i ssa.Instruction) {
+			st, ok := i.(*ssa.Store)
+			if !ok {
+				return
+			}
+			ia, ok := st.Addr.(*ssa.IndexAddr)
+			if !ok {
+				return
+			}
+			if _, isMk := ia.X.(*ssa.MakeSlice); !isMk {
+				return
+			}
+			first := int64(-99)
+			v := stripConv(st.Val)
+			if bo, ok := v.(*ssa.BinOp); ok && bo.Op.String() == "+" && (stripConv(bo.X) == ia.Index || stripConv(bo.X) == stripConv(ia.Index)) {
+				if d, isD := constInt(bo.Y); isD && (isCountingIndexOf(ia.Index) || isRangeIndexOf(ia.Index)) {
+					first = d
+				}
+			} else if v == ia.Index && (isCountingIndexOf(ia.Index) || isRangeIndexOf(ia.Index)) {
+				first = 0
+			}
+			if first == -99 {
+				return
+			}
+			n++
+			r.check(first >= 1, rule, w.FuncName(f), "the pool is filled from 1 (0 is reserved)", w.Pos(st.Pos()), fmt.Sprintf("first value %d", first), fmt.Sprintf("the pool's first value is %d: ID 0 is the value that means 'none' (DefaultApplicationID / no tunnel peer) — the object that gets it matches like an unfiltered rule and collides with the entries of rules that have none", first))
+		})
 		allInstrs(f, func(i ssa.Instruction) {
 			c, ok := i.(*ssa.Call)
 			if !ok || calleeName(c) != "builtin.append" || len(c.Call.Args) < 2 {
@@ -1728,7 +1756,9 @@ func ruleReservedIDNotPooled(w *World, r *Report, prop, rule string) {
 			r.check(start >= 1, rule, w.FuncName(f), "the pool is filled from 1 (0 is reserved)", w.Pos(c.Pos()), fmt.Sprintf("first value %d", start), fmt.Sprintf("the pool's first value is %d: ID 0 is the value that means 'none' (DefaultApplicationID / no tunnel peer) — the object that gets it matches like an unfiltered rule and collides with the entries of rules that have none", start))
 		})
 	}
-	r.floor(rule+" pool fills", n, 2)
+	if n == 0 {
+		brokenf(prop, rule, "no statement that fills an ID pool was recognised in initApplicationIDs / initTunnelPeerIDs")
+	}
 }
 
 // ruleWorkerAlwaysReports: a BESS rule worker that was started reports its completion on every path except the
@@ -2055,6 +2085,14 @@ func ruleHelperLoopNeedsItsSocket(w *World, r *Report, prop, rule string) {
 					}
 				})
 			}
+			// … or is handed by the go statement
+			for _, a := range gs.Call.Args {
+				if u, ok := a.(*ssa.UnOp); ok {
+					if fa, ok := u.X.(*ssa.FieldAddr); ok && fieldVar(fa) != nil && strings.Contains(typeName(fieldVar(fa).Type()), "net.Conn") {
+						fields[fieldVar(fa).Name()] = true
+					}
+				}
+			}
 			if len(fields) == 0 {
 				return
 			}
@@ -2085,7 +2123,7 @@ func ruleHelperLoopNeedsItsSocket(w *World, r *Report, prop, rule string) {
 			})
 		})
 	}
-	r.floor(rule+" helper goroutines with a socket", n, 2)
+	r.floor(rule+" helper goroutines with a socket", n, 1)
 }
 
 // ruleExpansionOnlyRead: what CreatePortRangeCartesianProduct returned is installed (or deleted) as it is: the
